@@ -68,6 +68,12 @@ func vCorruptExt(kind string) []byte {
 		return mk([]vIPFam{{v4, []asn1.BitString{{Bytes: []byte{10, 37, 77, 133, 1}, BitLength: 40}}}})
 	case "bitlen255":
 		return mk([]vIPFam{{v4, []asn1.BitString{{Bytes: make([]byte, 32), BitLength: 255}}}})
+	case "bitlen40_then_good":
+		return mk([]vIPFam{{v4, []asn1.BitString{{Bytes: []byte{10, 37, 77, 133, 1}, BitLength: 40}, {Bytes: []byte{10}, BitLength: 8}, {Bytes: []byte{1}, BitLength: 8}}}})
+	case "bitlen33_then_good":
+		return mk([]vIPFam{{v4, []asn1.BitString{{Bytes: []byte{10, 37, 77, 133, 0x80}, BitLength: 33}, {Bytes: []byte{10}, BitLength: 8}, {Bytes: []byte{1}, BitLength: 8}}}})
+	case "bitlen255_then_good":
+		return mk([]vIPFam{{v4, []asn1.BitString{{Bytes: make([]byte, 32), BitLength: 255}}}, {v4, []asn1.BitString{{Bytes: []byte{10}, BitLength: 8}, {Bytes: []byte{1}, BitLength: 8}}}})
 	case "shortbytes":
 		good := mk([]vIPFam{{v4, []asn1.BitString{{Bytes: []byte{10}, BitLength: 8}}}})
 		return good[:len(good)-2]
@@ -129,7 +135,7 @@ func runC11(t *testing.T, cases []map[string]interface{}, ev *vEvents) {
 	const nw = 8
 	worlds := make([]*vWorld, nw)
 	for i := range worlds {
-		worlds[i] = newWorld(vWorldOpts{NoDB: true, CertCfg: []string{"IPCertificate"}, WebUICfg: []string{"password"}})
+		worlds[i] = newWorld(vWorldOpts{NoDB: true, CertCfg: []string{"IPCertificate"}, WebUICfg: []string{"password"}, AdminUsers: []string{"admin"}})
 		worlds[i].st.Config.Base.AutomationUsers = []string{"svc", "svc2"}
 	}
 	worldsPw := make([]*vWorld, nw)
@@ -145,7 +151,9 @@ func runC11(t *testing.T, cases []map[string]interface{}, ev *vEvents) {
 		}
 		ext := vStr(c, "ext")
 		var cert *x509.Certificate
-		if ext == "wellformed" {
+		if vStr(c, "site") == "mint" {
+			// minted below, by the issuing endpoint itself
+		} else if ext == "wellformed" {
 			cert = w.roleCert("svc", vBlocksOf(c))
 		} else {
 			cert = w.craftedRoleCert("svc", vCorruptExt(ext))
@@ -171,6 +179,29 @@ func runC11(t *testing.T, cases []map[string]interface{}, ev *vEvents) {
 				}
 				ok, err := certgen.VerifyIPRestrictedX509CertIP(cert, lr)
 				out["auth"] = ok && err == nil
+			case "mint":
+				form := url.Values{"identity": {"svc"}, "pubkey": {vB64u(vKeyByID("p256").der)},
+					"target_netblock": {"100.64.0.0/10", "1.1.1.1/32"}}
+				for _, b := range vBlocksOf(c) {
+					form.Add("requestor_netblock", b.String())
+				}
+				r := w.Do(vReq{Method: "POST", Path: getRoleRequestingPath, Form: form,
+					Cookies: map[string]string{authCookieName: w.mintCookie("admin", AuthTypePassword|AuthTypeU2F, 0)}})
+				out["panic"] = r.Panic != ""
+				out["class"] = r.Class()
+				info := w.parseIssued(r.Body)
+				if info.X509 != nil {
+					out["cn"] = info.CN
+					if nets, err := certgen.ExtractIPNetsFromIPRestrictedX509(info.X509); err == nil {
+						out["blocks"] = vBlocksJSON(nets)
+					}
+					lr := remote
+					if lr == "-" {
+						lr = ""
+					}
+					ok, err := certgen.VerifyIPRestrictedX509CertIP(info.X509, lr)
+					out["auth"] = ok && err == nil
+				}
 			case "readback":
 				nets, err := certgen.ExtractIPNetsFromIPRestrictedX509(cert)
 				if err == nil {
